@@ -53,3 +53,130 @@ Qed.
 Theorem scale_tfl_unrenormalised_differs :
   scale_tfl 31 (2 ^ 31) 37 = 0 /\ MultiplyByQuantizedMultiplier 31 (2 ^ 30) (31 - 36) = 1.
 Proof. split; vm_compute; reflexivity. Qed.
+
+(* ------------------------------------------------------------------ elementwise add / sub *)
+Lemma srdhm_abs_le x q X : in32 x -> 0 <= q <= 2147483647 -> - X <= x <= X -> - X <= srdhm32_c x q <= X.
+Proof.
+  intros Hx Hq HX. assert (Hq32 : in32 q) by (unfold in32; lia).
+  destruct (srdhm32_c_bounds' x q Hx Hq32 ltac:(right; lia)) as [H1 H2]. unfold in32 in *. nia.
+Qed.
+
+Lemma rdbpot_abs_le x k X : 0 <= k -> - X <= x <= X -> - X <= rdbpot_c x k <= X.
+Proof.
+  intros Hk HX. destruct (Z.eq_dec k 0) as [->|Hne]; [rewrite rdbpot_c_e0; exact HX|].
+  destruct (rdbpot_c_bounds x k ltac:(lia)) as [H1 H2].
+  rewrite (pow2_half k ltac:(lia)) in H1, H2. pose proof (pow2_pos (k - 1) ltac:(lia)) as Hp.
+  set (p := 2 ^ (k - 1)) in *. nia.
+Qed.
+
+Lemma mbqm_right_closed x q sh :
+  in32 x -> in32 q -> -31 <= sh <= 0 ->
+  MultiplyByQuantizedMultiplier x q sh = rdbpot_c (srdhm32_c x q) (- sh).
+Proof.
+  intros Hx Hq Hs.
+  assert (Hp : in32 (x * 2 ^ Z.max 0 (31 - (31 - sh)))).
+  { replace (31 - (31 - sh)) with sh by lia. rewrite Z.max_l by lia. rewrite Z.pow_0_r, Z.mul_1_r. exact Hx. }
+  pose proof (scale_tfl_is_reference x q (31 - sh) Hx Hq ltac:(lia) Hp) as E.
+  replace (31 - (31 - sh)) with sh in E by lia. rewrite <- E.
+  unfold scale_tfl. cbv zeta. replace (31 - (31 - sh)) with sh by lia.
+  destruct (Z.ltb_spec 0 sh); [lia|]. rewrite Z.pow_0_r, Z.mul_1_r.
+  rewrite srdhm_closed. destruct (Z.ltb_spec sh 0).
+  - apply rdbpot_closed. lia.
+  - replace sh with 0 by lia. cbn [Z.opp]. rewrite rdbpot_closed by lia. reflexivity.
+Qed.
+
+(* the operand that is not scaled: the reference multiplies by 0.5 = (2^30, shift 0) *)
+Lemma mbqm_half x : in32 (x * 1048576) -> MultiplyByQuantizedMultiplier (x * 1048576) 1073741824 0 = x * 524288.
+Proof.
+  intros Hx. rewrite mbqm_right_closed; [|exact Hx|unfold in32; lia|lia].
+  cbn [Z.opp]. rewrite rdbpot_c_e0. unfold srdhm32_c.
+  destruct ((x * 1048576 =? 1073741824) && (x * 1048576 =? -2147483648)) eqn:E.
+  { apply andb_true_iff in E. rewrite !Z.eqb_eq in E. lia. }
+  replace (x * 1048576 * 1073741824) with (x * 524288 * 2147483648) by lia.
+  destruct (Z.geb_spec (x * 524288 * 2147483648) 0).
+  - rewrite Z.quot_div_nonneg by lia. symmetry. apply (Z.div_unique _ _ _ 1073741824); lia.
+  - set (y := - (x * 524288)). assert (Hy : 0 < y) by (unfold y; lia).
+    replace (x * 524288 * 2147483648 + (1 - 1073741824)) with (- (y * 2147483648 + 1073741823)) by (unfold y; lia).
+    rewrite Z.quot_opp_l by lia. rewrite Z.quot_div_nonneg by lia.
+    replace (x * 524288) with (- y) by (unfold y; lia). f_equal.
+    symmetry. apply (Z.div_unique _ _ _ 1073741823); lia.
+Qed.
+
+(* reference AddElementwise / SubElementwise for 8-bit operands (left shift 20): a, b are the operands plus their
+   offsets, (q1, sh1) (q2, sh2) (qo, sho) the input and output multipliers of add.cc / sub.cc Prepare; the kernel then
+   adds the output offset and clamps, as the hardware semantics does outside ew_value *)
+Definition tfl_addsub (sub : bool) (a b q1 sh1 q2 sh2 qo sho : Z) : Z :=
+  let sa := MultiplyByQuantizedMultiplier (a * 2 ^ 20) q1 sh1 in
+  let sb := MultiplyByQuantizedMultiplier (b * 2 ^ 20) q2 sh2 in
+  MultiplyByQuantizedMultiplier (if sub then sa - sb else sa + sb) qo sho.
+
+Lemma wide_is_reference a q s :
+  -255 <= a <= 255 -> 0 <= q <= 2147483647 -> 11 <= s <= 42 ->
+  scale_tfl (a * 2 ^ 20) q (s + 20) = MultiplyByQuantizedMultiplier (a * 2 ^ 20) q (31 - s - 20) /\
+  - (255 * 1048576) <= MultiplyByQuantizedMultiplier (a * 2 ^ 20) q (31 - s - 20) <= 255 * 1048576.
+Proof.
+  intros Ha Hq Hs. change (2 ^ 20) with 1048576.
+  assert (Hx : in32 (a * 1048576)) by (unfold in32; lia).
+  assert (Hq32 : in32 q) by (unfold in32; lia).
+  split.
+  - replace (31 - s - 20) with (31 - (s + 20)) by lia. apply scale_tfl_is_reference; try assumption; try lia.
+    rewrite Z.max_l by lia. rewrite Z.pow_0_r, Z.mul_1_r. exact Hx.
+  - rewrite mbqm_right_closed by (try assumption; lia).
+    apply rdbpot_abs_le; [lia|]. apply srdhm_abs_le; try assumption; lia.
+Qed.
+
+Theorem ew_addsub_opa32_is_reference :
+  forall mode a b q s opb qo so,
+    mode = 1 \/ mode = 2 ->
+    -255 <= a <= 255 -> -255 <= b <= 255 -> 0 <= q <= 2147483647 -> 11 <= s <= 42 ->
+    in32 qo -> 31 <= so <= 62 ->
+    ew_value 1 mode 1 0 true q s opb qo so a b
+    = tfl_addsub (mode =? 2) a b q (31 - s - 20) 1073741824 0 qo (31 - so).
+Proof.
+  intros mode a b q s opb qo so Hm Ha Hb Hq Hs Hqo Hso.
+  destruct (wide_is_reference a q s Ha Hq Hs) as [Ew Bw].
+  assert (Hbx : in32 (b * 1048576)) by (unfold in32; lia).
+  pose proof (mbqm_half b Hbx) as En.
+  unfold ew_value, tfl_addsub, ew_input_shift, apply_scale. cbn [Z.eqb Pos.eqb]. cbv zeta.
+  change (20 - 1) with 19. change (2 ^ 19) with 524288. change (2 ^ 20) with 1048576 in *.
+  rewrite Ew, En. set (sa := MultiplyByQuantizedMultiplier (a * 1048576) q (31 - s - 20)) in *.
+  destruct Hm as [-> | ->]; cbn [Z.eqb Pos.eqb].
+  - apply scale_tfl_is_reference; try assumption; try lia; [unfold in32; lia|].
+    rewrite Z.max_l by lia. rewrite Z.pow_0_r, Z.mul_1_r. unfold in32; lia.
+  - apply scale_tfl_is_reference; try assumption; try lia; [unfold in32; lia|].
+    rewrite Z.max_l by lia. rewrite Z.pow_0_r, Z.mul_1_r. unfold in32; lia.
+Qed.
+
+Theorem ew_addsub_opb32_is_reference :
+  forall mode a b q s opb qo so,
+    mode = 1 \/ mode = 2 ->
+    -255 <= a <= 255 -> -255 <= b <= 255 -> 0 <= q <= 2147483647 -> 11 <= s <= 42 ->
+    in32 qo -> 31 <= so <= 62 ->
+    ew_value 1 mode 2 0 true q s opb qo so a b
+    = tfl_addsub (mode =? 2) a b 1073741824 0 q (31 - s - 20) qo (31 - so).
+Proof.
+  intros mode a b q s opb qo so Hm Ha Hb Hq Hs Hqo Hso.
+  destruct (wide_is_reference b q s Hb Hq Hs) as [Ew Bw].
+  assert (Hax : in32 (a * 1048576)) by (unfold in32; lia).
+  pose proof (mbqm_half a Hax) as En.
+  unfold ew_value, tfl_addsub, ew_input_shift, apply_scale. cbn [Z.eqb Pos.eqb]. cbv zeta.
+  change (20 - 1) with 19. change (2 ^ 19) with 524288. change (2 ^ 20) with 1048576 in *.
+  rewrite Ew, En. set (sb := MultiplyByQuantizedMultiplier (b * 1048576) q (31 - s - 20)) in *.
+  destruct Hm as [-> | ->]; cbn [Z.eqb Pos.eqb].
+  - apply scale_tfl_is_reference; try assumption; try lia; [unfold in32; lia|].
+    rewrite Z.max_l by lia. rewrite Z.pow_0_r, Z.mul_1_r. unfold in32; lia.
+  - apply scale_tfl_is_reference; try assumption; try lia; [unfold in32; lia|].
+    rewrite Z.max_l by lia. rewrite Z.pow_0_r, Z.mul_1_r. unfold in32; lia.
+Qed.
+
+(* mul: the product of the two operands scaled by the output pair *)
+Theorem ew_mul_is_reference :
+  forall smode a b opa opash opb qo so,
+    -255 <= a <= 255 -> -255 <= b <= 255 -> in32 qo -> 0 <= so <= 62 ->
+    in32 (a * b * 2 ^ Z.max 0 (31 - so)) ->
+    ew_value 1 0 smode 0 true opa opash opb qo so a b = MultiplyByQuantizedMultiplier (a * b) qo (31 - so).
+Proof.
+  intros smode a b opa opash opb qo so Ha Hb Hqo Hso Hp.
+  unfold ew_value, apply_scale. cbn [Z.eqb]. cbv zeta.
+  apply scale_tfl_is_reference; try assumption. unfold in32; nia.
+Qed.
